@@ -433,6 +433,18 @@ class Inp:
     def __repr__(self): return 'Inp(%s)' % self.key
 
 
+class Handle:
+    """a path into an associative structure ( result.at( name ).branches.at( other ).success ): identity is the path"""
+    def __init__(self, path): self.path = tuple(path)
+    def __repr__(self): return 'Handle%r' % (self.path,)
+
+
+class StackV:
+    """a vector used as a stack of opaque items (immutable: operations return a new one)"""
+    def __init__(self, items): self.items = tuple(items)
+    def __repr__(self): return 'Stack%r' % (self.items,)
+
+
 class Alias:
     """a local reference bound to another lvalue expression (auto& it = m_current)"""
     def __init__(self, expr): self.expr = expr
@@ -464,7 +476,7 @@ class Interp:
     def __init__(self, db, space, nbytes=8, signed_char_reads=True):
         self.db = db; self.sp = space; self.findings = []; self.steps = 0
         self.avail = space.byname.get('avail')
-        self.reads = collections.Counter(); self.intercept = {}; self.ptr_compare = None; self.callsite = None; self.construct_hook = None
+        self.reads = collections.Counter(); self.intercept = {}; self.ptr_compare = None; self.callsite = None; self.construct_hook = None; self.objexpr = None
 
     # ---- helpers
     def byte(self, k, t='unsigned char'):
@@ -612,6 +624,13 @@ class Interp:
         op = e['op']
         if op in ('++', '--'):
             tgt = e['e']
+            if tgt.get('k') == 'member':
+                # a counter inside an associative structure: the increment is an effect on that path
+                hs = list(self.ev(tgt, st))
+                if len(hs) == 1 and isinstance(hs[0][0], Handle):
+                    h, s2 = hs[0]
+                    s2.eff = s2.eff + (('inc' if op == '++' else 'dec', h.path),)
+                    yield h, s2; return
             old = self.lv_get(tgt, st)
             dlt = 1 if op == '++' else -1
             new = Ptr(old.base, old.off + dlt) if isinstance(old, Ptr) else fit(binop('+', old, Val.const(dlt)), tgt.get('t'))
@@ -761,6 +780,10 @@ class Interp:
             elif isinstance(b, Rec) and e.get('n') in b.f:
                 v = b.f[e['n']]
                 yield v, s
+            elif isinstance(b, Handle):
+                yield Handle(b.path + (e.get('n'),)), s
+            elif isinstance(b, Opaque) and b.tag.startswith('obj:'):
+                yield Opaque(b.tag + '.' + e.get('n')), s
             else: raise Unmodelled('member %s of %r' % (e.get('n'), b))
 
     def e_index(self, e, st):
@@ -781,6 +804,7 @@ class Interp:
         args = list(e.get('args', []))
         if e.get('objfirst') and args: obj = args[0]; args = args[1:]
         ov = None
+        self.objexpr = obj
         if obj is not None:
             r = list(self.ev(obj, st))
             if len(r) != 1: raise Unmodelled('forking object expression')
@@ -801,6 +825,24 @@ class Interp:
             r = h(self, e, ov, av, st)
             if r is not None:
                 yield from r; return
+        if isinstance(ov, Handle) and cn in ('at', 'operator[]', 'find') and len(av) == 1:
+            k = av[0]
+            key = k.tag if isinstance(k, Opaque) else (k.path if isinstance(k, Handle) else repr(k))
+            yield Handle(ov.path + (('at', key),)), st; return
+        if isinstance(ov, StackV):
+            oe = self.objexpr
+            if cn == 'empty': yield Val.const(int(not ov.items)), st; return
+            if cn == 'size': yield Val.const(len(ov.items)), st; return
+            if cn == 'back':
+                if not ov.items:
+                    self.findings.append(('stack', 'back() of an empty rule stack', e.get('loc'))); raise Unmodelled('back() of an empty stack')
+                yield ov.items[-1], st; return
+            if cn in ('push_back', 'emplace_back'):
+                self.lv_set(oe, st, StackV(ov.items + (av[0],))); yield Opaque('void'), st; return
+            if cn == 'pop_back':
+                if not ov.items:
+                    self.findings.append(('stack', 'pop_back() of an empty rule stack', e.get('loc'))); raise Unmodelled('pop_back() of an empty stack')
+                self.lv_set(oe, st, StackV(ov.items[:-1])); yield Opaque('void'), st; return
         if isinstance(ov, Agg) and cn in ('size', 'begin', 'end'):
             yield (Val.const(len(ov.items)) if cn == 'size' else Ptr(('agg', ov), 0 if cn == 'begin' else len(ov.items))), st; return
         if ((isinstance(ov, Opaque) and ov.tag == 'input') or isinstance(ov, Inp)) and cn in INPUT_OPS:
